@@ -6,6 +6,39 @@
 open Model
 open Conv
 
+(* one large Peano fuel shared by all cases (the memoising driver model consumes it structurally) *)
+let big_fuel = let rec mk n acc = if n = 0 then acc else mk (n - 1) (S acc) in mk 3000000 O
+
+let cache_entries name fs =
+  match Sexp.field_opt name fs with
+  | None | Some [Sexp.Atom "skipped"] -> None
+  | Some l -> Some (List.map (function
+      | Sexp.List [k; v] -> (expr_of_sexp k, expr_of_sexp v)
+      | x -> raise (Sexp.Parse_error ("bad cache entry " ^ Sexp.to_string x))) l)
+
+let show_sres = function
+  | SOk r -> Sexp.to_string (sexp_of_expr r) | SPanic -> "(panic)" | SFuel -> "(outoffuel)"
+
+(* the memoising driver model on the history [order]; results per member, final cache *)
+let model_history (exprs : expr list) (order : int list) : (int * sres) list * (expr * expr) list =
+  let es = List.map (fun i -> List.nth exprs i) order in
+  let (c, rs) = simplify_batch big_fuel [] es in
+  (List.combine order rs, c)
+
+(* compare the implementation's cache (a finite map, keys unique) with the model's (newest binding first) *)
+let cache_diff (impl : (expr * expr) list) (mc : (expr * expr) list) : string option =
+  let bad = List.find_opt (fun (k, v) -> match lookup mc k with Some v' -> not (expr_eqb v v') | None -> true) impl in
+  match bad with
+  | Some (k, v) ->
+      Some (Printf.sprintf "entry %s -> %s of the implementation; model has %s" (Sexp.to_string (sexp_of_expr k)) (Sexp.to_string (sexp_of_expr v))
+              (match lookup mc k with Some v' -> Sexp.to_string (sexp_of_expr v') | None -> "no entry"))
+  | None ->
+      let keys = List.fold_left (fun acc (k, _) -> if List.exists (fun k' -> expr_eqb k k') acc then acc else k :: acc) [] mc in
+      let extra = List.find_opt (fun k -> not (List.exists (fun (k', _) -> expr_eqb k k') impl)) keys in
+      (match extra with
+       | Some k -> Some (Printf.sprintf "the model has an entry for %s, the implementation has none" (Sexp.to_string (sexp_of_expr k)))
+       | None -> None)
+
 let handle (x : Sexp.t) : string =
   let id, fs = case_fields x in
   let timeout = match Sexp.field_opt "timeout" fs with Some [Sexp.Atom "yes"] -> true | _ -> false in
@@ -33,9 +66,33 @@ let handle (x : Sexp.t) : string =
           let shared_txt = List.map Sexp.to_string shared in
           let model_txt = List.map (fun e -> match simp_default e with
               | SOk r -> Sexp.to_string (sexp_of_expr r) | SPanic -> "(panic)" | SFuel -> "(outoffuel)") exprs in
-          if shared_txt = model_txt then Registry.result ~id ~status:"ok" ~key:"batch" ()
-          else Registry.result ~id ~status:"diff" ~key:"batch"
+          if shared_txt <> model_txt then Registry.result ~id ~status:"diff" ~key:"batch"
               ~detail:(Printf.sprintf "impl=%s model=%s" (String.concat " " shared_txt) (String.concat " " model_txt)) ()
+          else begin
+            (* the memoising driver model (Model.SimplifyCache) on the same two histories: results and final caches *)
+            let order = List.map (fun a -> int_of_string (Sexp.atom a)) (Sexp.field "order" fs) in
+            let hist name ord cache_name =
+              let (rs, mc) = model_history exprs ord in
+              let wrong = List.find_opt (fun (i, r) -> show_sres r <> List.nth shared_txt i) rs in
+              match wrong with
+              | Some (i, r) -> Some (Printf.sprintf "%s history: member %d: cached model gives %s, implementation %s" name i (show_sres r) (List.nth shared_txt i))
+              | None ->
+                  (match cache_entries cache_name fs with
+                   | None -> None
+                   | Some impl -> (match cache_diff impl mc with Some d -> Some (name ^ " cache: " ^ d) | None -> None)) in
+            (* the model's cache is an association list over expression TREES: histories whose cache the harness
+               found too large to dump (wide masks expanding into long concat chains) are left to the cache-free model *)
+            if cache_entries "cache-sparse" fs = None then Registry.result ~id ~status:"ok" ~key:"batch" ()
+            else
+            match hist "sparse" order "cache-sparse" with
+            | Some d -> Registry.result ~id ~status:"diff" ~key:"cached-driver" ~detail:d ()
+            | None ->
+                match hist "dense" (List.rev order) "cache-dense" with
+                | Some d -> Registry.result ~id ~status:"diff" ~key:"cached-driver" ~detail:d ()
+                | None ->
+                    let compared = (cache_entries "cache-sparse" fs <> None) in
+                    Registry.result ~id ~status:"ok" ~key:(if compared then "batch+cache" else "batch") ()
+          end
         end
   end
 
